@@ -478,3 +478,17 @@ def c07h(ctx):
     ok = bool(rm) and all(g.guarded(n, alive, False) for n, x in rm)
     ctx.check(ok, 'CacheLocker._poll:removes-dead-only', 'entries of other holders are removed only when is_running() is false', po,
               fail='_poll removes the lock entry of a holder without finding its process gone')
+
+
+@rule('C07.i', floor=2)
+def c07i(ctx):
+    """shared rule, re-evaluated for this property: taking a lock fails only with a timeout -- the sweep of the lock directory that
+    TileLocker.lock runs before it creates its FileLock tolerates lock files that their holders remove (release) while it looks at
+    them (C08.f); otherwise a waiter fails with FileNotFoundError although the lock it wanted was free"""
+    from ..engine import run_property
+    sub = run_property(ctx.repo, 'C08', ctx.tier, only={'C08.f'})
+    for er in sub.errors:
+        raise Undecided('shared rule %s: %s' % er)
+    for o in sub.obs:
+        (ctx.ok if o.status == 'ok' else ctx.bad)('%s:%s' % (o.rule, o.construct), o.msg, o.where)
+    ctx.stats['functions'] |= sub.stats['functions']
